@@ -87,7 +87,7 @@ func replayC03(w core.Witness) string {
 
 // findModeOf reports the published find mode (evidence only).
 func findModeOf(src string, opts, copts int) string {
-	tree, err := syntax.Parse(src, syntax.ParseOptions{RegexOptions: syntax.RegexOptions(opts), CodeGen: copts&mon.COCodeGen != 0})
+	tree, err := mon.ParseLocked(src, syntax.ParseOptions{RegexOptions: syntax.RegexOptions(opts), CodeGen: copts&mon.COCodeGen != 0})
 	if err != nil || tree.FindOptimizations == nil {
 		return "none"
 	}
